@@ -76,6 +76,31 @@ pub enum Content {
     Literal(Bytes),
     /// `marker` followed by position-dependent filler up to `len` bytes in total
     Gen { marker: String, len: usize, seed: u64, binary: bool },
+    /// a sparse file of `len` bytes: zeros, except for "islands" of position-dependent non-zero
+    /// bytes at the start, around every power of two from 4096 up, and at the end. Costs neither
+    /// disk space nor (in the model, see `materialize`) touched memory outside the islands, so
+    /// offsets beyond 2^31 / 2^32 can be requested.
+    Sparse { len: u64, seed: u64 },
+}
+
+pub const ISLAND: u64 = 64;
+
+/// (offset, bytes) of the non-zero stretches of a sparse file
+pub fn islands(len: u64, seed: u64) -> Vec<(u64, Vec<u8>)> {
+    let mut spans: Vec<(u64, u64)> = vec![];
+    spans.push((0, ISLAND.min(len)));
+    let mut k = 12u32;
+    while k < 63 && (1u64 << k) < len {
+        let c = 1u64 << k;
+        spans.push((c - ISLAND / 2, (c + ISLAND / 2).min(len)));
+        k += 1;
+    }
+    spans.push((len.saturating_sub(ISLAND), len));
+    spans
+        .into_iter()
+        .filter(|(a, b)| a < b)
+        .map(|(a, b)| (a, (a..b).map(|i| (splitmix64(seed ^ i.wrapping_mul(0x9E37_79B9)) as u8) | 1).collect()))
+        .collect()
 }
 
 impl Content {
@@ -103,12 +128,21 @@ impl Content {
                 }
                 v
             }
+            Content::Sparse { len, seed } => {
+                // alloc_zeroed: the pages are mapped lazily, only the islands are touched
+                let mut v = vec![0u8; *len as usize];
+                for (at, bytes) in islands(*len, *seed) {
+                    v[at as usize..at as usize + bytes.len()].copy_from_slice(&bytes);
+                }
+                v
+            }
         }
     }
     pub fn len(&self) -> usize {
         match self {
             Content::Literal(b) => b.0.len(),
             Content::Gen { marker, len, .. } => (*len).max(marker.len()),
+            Content::Sparse { len, .. } => *len as usize,
         }
     }
 }
